@@ -35,7 +35,8 @@ fn run_case(ops: &[Op]) -> (String, String) {
                 Op::Restore => { st.restore(); "r".into() }
             };
             let n = st.len();
-            format!("{}:{}", tag, contents(&st[0..n]))
+            // internal bookkeeping (hooks, cfg pest_parser_pest_verif): one length pair per open snapshot, retained pops
+            format!("{}:{}|d{}p{}", tag, contents(&st[0..n]), st.verif_snapshot_depth(), st.verif_popped_len())
         });
         let expect = {
             let tag = match op {
@@ -50,7 +51,13 @@ fn run_case(ops: &[Op]) -> (String, String) {
         };
         match r {
             Ok(s) => {
-                if s != expect && verdict == "ok" { verdict = format!("FAIL op#{} impl={} naive={}", i, s, expect); }
+                // the naive stack predicts the public part, the number of open snapshots, and (C11.bookkeeping_no_leak)
+                // that nothing is retained once no snapshot is open
+                let book = format!("|d{}p", saved.len());
+                let leak = saved.is_empty() && !s.ends_with("p0");
+                if (!s.starts_with(&format!("{}{}", expect, book)) || leak) && verdict == "ok" {
+                    verdict = format!("FAIL op#{} impl={} naive={}{}{}", i, s, expect, book, if saved.is_empty() { "0" } else { "*" });
+                }
                 out.push(s);
             }
             Err(_) => {
